@@ -355,6 +355,7 @@ package dnsserver
 //@   requires SD(s) && s.tcpPool != nil && conn != nil && wg != nil && writeMu != nil && msgSema != nil
 //@   modifies stamped, allcells([]byte), allelems(byte), allcells(uint16), holders[msgSema]
 //@   ensures slot-taken-iff-submitted: holders[msgSema] <= old(holders[msgSema]) + 1
+//@   atcall Submit assert pipeline-slot-held-before-the-query-runs: holders[msgSema] == old(holders[msgSema]) + 1
 
 //@ func (*ServerDNS).acceptTCPMsg$1
 //@   property C06 C18
